@@ -29,6 +29,9 @@ type PropRun struct {
 	Extra       map[string]any
 	// custom replay synthesiser: returns (goTestSource, pkgDir, testName) or "" if none
 	Replay func(o *Obligation, r *FnResult) *ReplaySpec
+	// Claim: which generated obligations belong to this property (nil = all); the others are decided by the
+	// check of the property that owns the contract clause and are dropped here.
+	Claim func(o *Obligation) bool
 }
 
 type ReplaySpec struct {
@@ -149,6 +152,17 @@ func cmdCheck(args []string) int {
 	tGen := time.Now()
 	run := d.Run(e, tier)
 	run.ID = id
+	if run.Claim != nil {
+		for _, r := range run.Results {
+			var keep []*Obligation
+			for _, o := range r.Obls {
+				if run.Claim(o) {
+					keep = append(keep, o)
+				}
+			}
+			r.Obls = keep
+		}
+	}
 	if os.Getenv("GOVC_TRACE") != "" {
 		fmt.Fprintf(os.Stderr, "generation: %.1fs (load+gen since start %.1fs)\n", time.Since(tGen).Seconds(), time.Since(t0).Seconds())
 	}
